@@ -171,6 +171,17 @@ pub mod a2 {
         s
     }
 
+    pub fn fkind(s: &dyn Shape) -> String {
+        match s.as_typed_shape() {
+            TypedShape::Ball(_) => "ball".into(), TypedShape::Cuboid(_) => "cuboid".into(), TypedShape::Capsule(_) => "capsule".into(),
+            TypedShape::Segment(_) => "seg".into(), TypedShape::Triangle(_) => "tri".into(), TypedShape::HalfSpace(_) => "hs".into(),
+            TypedShape::ConvexPolygon(_) => "polygon".into(), TypedShape::Polyline(_) => "polyline".into(), TypedShape::HeightField(_) => "hf".into(),
+            TypedShape::RoundCuboid(_) => "rcuboid".into(), TypedShape::RoundConvexPolygon(_) => "rpolygon".into(),
+            TypedShape::Compound(c) => { let mut s = format!("compound {}", c.shapes().len()); for (_, sub) in c.shapes() { s.push(' '); s.push_str(&fkind(&*sub.0)); } s }
+            _ => "unknown-shape".into(),
+        }
+    }
+
     pub fn exec(func: &str, a: &mut Args) -> Option<String> {
         Some(match func {
             // 2-D polyline: acc2 NV verts NE idx scale(2) VIA NR (o(2) d(2))* NP p(2)* NB (mins maxs)*
@@ -202,6 +213,8 @@ pub mod a2 {
                     s.push_str(&format!(" {}", out.len())); for i in out { s.push_str(&format!(" {}", i)); } }
                 s
             }
+            "scale_dyn_kind2" => { let s = super::super::ext::e2::sh(a); let sc = d2::v(a); let n = a.u() as u32;
+                match s.scale_dyn(&sc, n) { None => "none".into(), Some(r) => fkind(&*r) } }
             "aabb_scaled2" => { let lo = d2::p(a); let hi = d2::p(a); let sc = d2::v(a); fbox(&Aabb::new(lo, hi).scaled(&sc)) }
             _ => return None,
         })
@@ -418,6 +431,7 @@ pub mod g {
             }
             { let (vs, ts) = closed_mesh(r, lat); let fl = *r.pick(&[8u32, 8, 9, 0]);
               v.push(("trimesh_scaled_idx".into(), format!("{} {} {}", fmesh(&vs, &ts), fl, d3::hv(&sc)))); }
+            v.push(("scale_dyn_kind2".into(), format!("{} {} {}", super::super::ext::g::shape2(r, lat), d2::hv(&super::super::ext::g::scale2(r, lat)), 3 + r.below(8))));
             // Aabb::scaled alone, every sign pattern (proper boxes, incl. flat ones)
             let lo = d3::gen_v(r, lat, 4.0); let e = V3::new(r.coord(lat, 2.0).abs(), r.coord(lat, 2.0).abs(), if it % 7 == 0 { 0.0 } else { r.coord(lat, 2.0).abs() });
             v.push(("aabb_scaled3".into(), format!("{} {} {}", d3::hv(&lo), d3::hv(&(lo + e)), d3::hv(&sc))));
